@@ -149,6 +149,8 @@ def _layout(breaks, seps, crlf=False):
         else:
             cur += ["", " ", "  ", "\\t"][seps[g]] if (seps[g] and False) else " "
             cur += nxt
+    if crlf:
+        return lines + [cur + "\\r", ""]  # a CRLF file: every line, the last one too, ends in \r\n
     lines.append(cur)
     return lines
 
@@ -166,11 +168,11 @@ def kf_quote_at_line_start(g1: int, g2: int, g3: int, indent: int) -> bool:
 NBREAK = env_int("VF_NBREAK", 2)
 
 
-def c_lines(g1: int, g2: int, g3: int, indent: int, blank: bool) -> bool:
+def c_lines(g1: int, g2: int, g3: int, indent: int, blank: bool, crlf: bool) -> bool:
     """
     C05.lines: breaking a statement into lines at up to NBREAK token gaps (g1 < g2 < g3, -1 =
     unused), indenting continuation lines, and inserting a blank line after the first break
-    hands the parser the same statement as the one-line spelling.
+    hands the parser the same statement as the one-line spelling - with LF or CRLF line ends.
 
     pre: -1 <= g1 < NGAP and -1 <= g2 < NGAP and -1 <= g3 < NGAP
     pre: (g2 == -1 or g1 < g2) and (g3 == -1 or (g2 != -1 and g2 < g3))
@@ -179,10 +181,10 @@ def c_lines(g1: int, g2: int, g3: int, indent: int, blank: bool) -> bool:
     pre: not kf_quote_at_line_start(g1, g2, g3, indent)
     post: _
     """
-    lines = _layout(_breaks(g1, g2, g3), [1] * NGAP)
+    lines = _layout(_breaks(g1, g2, g3), [1] * NGAP, crlf)
     lines = [lines[0]] + [(" " * (2 * indent)) + ln for ln in lines[1:]]
     if blank and len(lines) > 1:
-        lines = lines[:1] + [""] + lines[1:]
+        lines = lines[:1] + ["\\r" if crlf else ""] + lines[1:]
     got = run_lines(lines)
     return stmts_of(got) == ONE_LINE and others_of(got) == []
 
@@ -323,11 +325,11 @@ def api_c_split3(i1, i2, i3):
     return {"ddl": text, "got": got, "expected_entities": want, "reproduced": not ok}
 
 
-def api_c_lines(g1, g2, g3, indent, blank):
-    lines = _layout(_breaks(g1, g2, g3), [1] * NGAP)
+def api_c_lines(g1, g2, g3, indent, blank, crlf):
+    lines = _layout(_breaks(g1, g2, g3), [1] * NGAP, crlf)
     lines = [lines[0]] + [(" " * (2 * indent)) + ln for ln in lines[1:]]
     if blank and len(lines) > 1:
-        lines = lines[:1] + [""] + lines[1:]
+        lines = lines[:1] + ["\\r" if crlf else ""] + lines[1:]
     pre = ["CREATE TABLE t (a int, b int);"] if TOK[0] != "CREATE" or TOK[1] != "TABLE" else []
     text, got = _api(pre + lines)
     _, want = _api(pre + [" ".join(TOK[:-1]) + ";"])
